@@ -160,6 +160,13 @@ def rel_size(off, on, deps):
         x, y = a.split("\n"), b.split("\n")
         k = next((j for j in range(min(len(x), len(y))) if x[j] != y[j]), min(len(x), len(y)))
         return f"after erasing STRING[n] annotations and allocation lines the texts differ at line {k}: {x[k:k+1]} vs {y[k:k+1]}"
+    alloc = set(re.findall(r"(?m)^DIM ([A-Za-z_0-9]+\$):STRING\[\d+\]$", on))
+    dimmed = set()
+    for ln in re.findall(r"(?m)^\s*(?:\d+ )?DIM ([^\n:]*): STRING\[\d+\]\s*$", on):  # the program's own DIM statements are written ': STRING[n]
+        dimmed |= {x.strip().split("(")[0] for x in ln.split(",") if "$" in x}
+    both = sorted(alloc & dimmed)
+    if both:
+        return f"with the string size set, {both} is declared by the program's own DIM and again by an allocation line"
     if "STRING[32]" in on or re.search(r"STRING\[(?!80\])\d+\]", on.replace("STRING[5]", "").replace("STRING[80]", "")):
         pass
     return None
